@@ -948,6 +948,34 @@ theorem saPlace_complete_unit (vr : VR) (cs : List Constraint) (m m' : Machine) 
           left
           exact ⟨s.p, fl', by simp [finalise, finaliseFrom]⟩
 
+/-- **Completeness with the default chip order** (`list(machine)`: sequential and breadth-first
+placers) - `seqPlace_complete_unit` with the hypotheses on the chip order discharged. -/
+theorem seqPlace_complete_unit_default (vr : VR) (cs : List Constraint) (m m' : Machine) (fixed : Placement)
+    (vertexOrder : Option (List Vtx)) (r0 : Nat)
+    (hnodup : (keys vr).Nodup) (hcap : NonNegCap m)
+    (hnosame : ∀ vs, Constraint.same vs ∉ cs)
+    (hunit : ∀ v d, (v, d) ∈ vr → UnitDem r0 d)
+    (hprep : prepareLoop vr cs m [] = .ok (m', fixed))
+    (hknown : ∀ v ∈ vertexOrder.getD (keys vr), v ∈ keys vr)
+    (hne : m'.chips ≠ [])
+    (hsuff : needOf fixed vr r0 (vertexOrder.getD (keys vr)) ≤ total m' m'.chips r0) :
+    ∃ p, seqPlace vr cs m vertexOrder none = .ok p := by
+  have hmem : ∀ c, c ∈ m'.chips.filter m'.ok ↔ m'.ok c = true := by
+    intro c
+    rw [List.mem_filter, mem_chips_iff]
+    exact ⟨fun h => h.2, fun h => ⟨h, h⟩⟩
+  have hnd' : (m'.chips.filter m'.ok).Nodup := List.Nodup.sublist List.filter_sublist (chips_nodup m')
+  apply seqPlace_complete_unit vr cs m m' fixed vertexOrder none r0 hnodup hcap hnosame hunit hprep hknown
+  · simpa using hnd'
+  · simp only [Option.getD_none]
+    obtain ⟨c, hc⟩ := List.exists_mem_of_ne_nil _ hne
+    intro e
+    have := (hmem c).2 ((mem_chips_iff m' c).1 hc)
+    rw [e] at this; simp at this
+  · simp only [Option.getD_none]
+    rw [total_cover m' r0 _ hnd' hmem]
+    exact hsuff
+
 /-! ### the Hilbert placer -/
 
 /-- **The model of `hilbert(level)` is a Hilbert curve**: for EVERY level it visits every point of
